@@ -330,9 +330,9 @@ h("C09", "c09", "c09_grid_neighbourhood_doubles_window", "thorough", 6000,
 h("C09", "c09", "c09_quantized_neighbourhood_lattice", "quick", 1200,
   f"quantize_coords (batch epsilon dedup), eps = 1e-10 or 2^-m (m in 20..=40), same lattices: {NB}",
   ["core::delaunay_triangulation::quantize_coords"])
-h(["C09", "C19"], "c09", "c09_within_epsilon_nan_strict_1d", "quick", 1800,
-  "coords_within_epsilon D=1 over UNRESTRICTED doubles: NaN never within; distance exactly epsilon is not a duplicate "
-  "(strict <); identical finite coordinates are within any epsilon with eps^2 > 0",
+h(["C09", "C19"], "c09", "c09_within_epsilon_nan_identity_1d", "quick", 1800,
+  "coords_within_epsilon D=1 over UNRESTRICTED doubles: NaN never within; identical finite coordinates are within any "
+  "epsilon with eps^2 > 0 (strictness at exactly epsilon is decided by c09_within_epsilon_exact_grid_2d)",
   ["core::util::deduplication::coords_within_epsilon"], kani_args=NOFLOATCHK)
 h("C09", "c09", "c09_within_epsilon_exact_grid_2d", "quick", 1800,
   "coords_within_epsilon D=2, all pairs of integer points in [-4,4]^2, eps = n/4 for n in 1..=24: symmetric and equal to the "
